@@ -49,10 +49,17 @@ type hfile struct {
 	Vals []string `json:"vals"` // "-" = absent
 }
 
+// hlink: a symbolic link (always present) to one of the program's files; paths relative to the project.
+type hlink struct {
+	Path string `json:"path"`
+	File int    `json:"file"` // index into Files
+}
+
 type hprog struct {
 	Name  string  `json:"name"`
 	Tasks []htask `json:"tasks"`
 	Files []hfile `json:"files"`
+	Links []hlink `json:"links,omitempty"`
 	// Reps > 1: every run op is executed that many times and the distinct outcomes are united.
 	// Go randomises the iteration order of spok's own maps (e.g. SpokFile.Tasks); it cannot be
 	// controlled from outside, so for programs where it could matter it is at least varied.
@@ -180,6 +187,12 @@ func histCatalogue() []hprog {
 		// the spokfile itself changes between invocations: a task is removed, comes back, is renamed
 		{Name: "P18-spokfile-edited", ReqMax: 1, Tasks: []htask{{Name: "ta", Lits: []string{"a.txt"}}, {Name: "tb", Lits: []string{"b.txt"}}, {Name: "tc", Lits: []string{"b.txt"}}},
 			Variants: [][]int{{0, 1}, {0}, {0, 2}}, Files: []hfile{globf("a.txt", "v0"), lit("b.txt")}},
+		// dependencies that are symbolic links to files kept elsewhere: the content behind the link is the input
+		{Name: "P20-symlinked-inputs", Tasks: []htask{{Name: "ta", Lits: []string{"in.txt"}}, {Name: "tb", Globs: []string{"src/*.txt"}}},
+			Files: []hfile{lit("data/real.txt"), lit("data/other.txt"), globf("src/plain.txt", "v0")}, Links: []hlink{{"in.txt", 0}, {"src/l.txt", 1}}},
+		// a generator, a bystander that is up to date, and a consumer of the generator's glob match, all independent
+		{Name: "P21-generator-bystander-consumer", Tasks: []htask{{Name: "ta", EffFile: 2, EffVal: "gen"}, {Name: "ty", Lits: []string{"y.txt"}}, {Name: "tb", Globs: []string{"*.src"}}},
+			Files: []hfile{globf("x.src", "v0"), globf("g.src", absent, "gen"), globf("y.txt", "v0")}},
 		{Name: "P8-three-tasks", Tasks: []htask{{Name: "ta", Lits: []string{"a.txt"}}, {Name: "tb", Lits: []string{"b.txt"}}, {Name: "tc", Deps: []string{"ta", "tb"}}}, Files: []hfile{lit("a.txt"), lit("b.txt")}},
 	}
 }
@@ -389,6 +402,9 @@ func histOps(p hprog, d hdisk, withForce bool) []hop {
 		if d.HasCache && len(r) == 1 {
 			// environment fault: the cache file cannot be written while this run is going on
 			ops = append(ops, hop{Kind: "run", Req: r, Fault: "ro-cache"})
+			if withForce {
+				ops = append(ops, hop{Kind: "run", Req: r, Fault: "ro-cache", Force: true})
+			}
 		}
 		for _, f := range fails {
 			ops = append(ops, hop{Kind: "run", Req: r, Fail: f})
@@ -414,6 +430,12 @@ func inputsNow(p hprog, t htask, d hdisk) string {
 	for i, f := range p.Files {
 		if d.Files[i] != absent {
 			present[f.Path] = d.Files[i]
+		}
+	}
+	for _, l := range p.Links {
+		// a dependency that is a symbolic link names the file it points to
+		if d.Files[l.File] != absent {
+			present[l.Path] = d.Files[l.File]
 		}
 	}
 	seen := map[string]bool{}
@@ -458,6 +480,12 @@ func materialise(sb *proj.Sandbox, p hprog, d hdisk) {
 		full := filepath.Join(sb.Dir, f.Path)
 		os.MkdirAll(filepath.Dir(full), 0o755)
 		os.WriteFile(full, []byte(d.Files[i]+"\n"), 0o644)
+	}
+	for _, l := range p.Links {
+		full := filepath.Join(sb.Dir, l.Path)
+		os.MkdirAll(filepath.Dir(full), 0o755)
+		target, _ := filepath.Rel(filepath.Dir(full), filepath.Join(sb.Dir, p.Files[l.File].Path))
+		os.Symlink(target, full)
 	}
 	if d.SpokDir {
 		sp := filepath.Join(sb.Dir, ".spok")
